@@ -369,6 +369,11 @@ async def run_worker(loop, sc: dict, make=None, projector=inmem_projector, signa
             # the cancel event only *forces* anything if processing tasks are still pending
             state["forced"] = True
             rec.emit({"e": "forced"})
+    # timers of the harness itself, so that its deadlines are noticed even when the system under test is idle
+    # (brokers without polling schedule nothing while they wait)
+    _wake = [loop.call_at(sc.get("horizon_ms", 60_000) / 1000, lambda: None)]
+    if sc.get("stop") and "at_ms" in sc["stop"]:
+        _wake.append(loop.call_at(sc["stop"]["at_ms"] / 1000, lambda: None))
     kill_fut = loop.create_future()
 
     def do_kill():
@@ -419,6 +424,8 @@ async def run_worker(loop, sc: dict, make=None, projector=inmem_projector, signa
         rec.worker_no = 0
         feed.cancel()
         await vloop.settle(40)
+        await asyncio.sleep(0.3)      # stragglers: a delivery that crossed the consumer's shutdown is given back 0.1 s later
+        await vloop.settle(10)
     finally:
         loop.after_handle = prev_after
         repid.worker._Runner = saved_runner
